@@ -1017,3 +1017,40 @@ Example C02_refused_example :
   /\ paints_all 40 20 (MultiSpec.run 40 20 nofaults ml_s0 ml_h1) (fst ml_o) (snd ml_o) = true
   /\ settled 40 20 ml_s0 (ml_h1 ++ [ml_o]) = true.
 Proof. vm_compute. repeat split. Qed.
+
+(** ------------------------------------------------------------------------------------------
+    Second audit, m6 - "suspend through a detached bar" ([AWrite ws => ws = []] in FitsAll /
+    FitsAllB) is a NEEDED exclusion.  ProgressBar::suspend on a bar whose target is hidden (never
+    added, or removed) draws nothing and just runs the closure: its lines land wherever the cursor
+    is - wrap-pending at the end of the last live row, so the first line goes to the row BELOW the
+    region - and indicatif's row counters know nothing about them: the next draw moves up
+    last_line_count - 1 rows from the NEW cursor row, erases from there, and repaints the members
+    below the foreign line; the old rows stay above it.  Witness (6 x 10, member A, detached bar D):
+    add A; tick A; D.suspend(|| write_line "w"); tick A leaves the rows "A0", "w", "A0": A is on
+    the screen twice, whereas the ghost (log "w", live "A0") describes "w", "A0".  Every other
+    proviso of C02_screen holds.  Foreign output while a MultiProgress is on screen has to go
+    through MultiProgress::suspend or a member's suspend. *)
+Definition ds_s0 : sys :=
+  mksys [exm_bar 65; exm_bar 68] (new_ms (TTerm (new_ttarget None 0))) 0.
+Definition ds_h : list (N * op) :=
+  [(0, OInsert BEnd 0); (1000000, OTick 0); (2000000, OSuspend 1 [[119]]); (3000000, OTick 0)].
+
+Theorem C02_detached_suspend_refuted :
+  let st := ms_run 6 10 (ds_s0, mghost0, term_init) ds_h in
+  ms_initial ds_s0 /\ ready 6 10 [] term_init /\ MultiSpec.hist_ok 6 10 nofaults ds_s0 ds_h
+  /\ FitsAll 6 10 ds_s0 (firstn 2 ds_h) /\ ~ FitsAll 6 10 ds_s0 (firstn 3 ds_h)
+  /\ snd (fst st) = mkmg [[119]] [] [[65;48]]
+  /\ screen 6 (snd st) = map (pad 6) [[65;48]; [119]; [65;48]].
+Proof.
+  cbn zeta. split.
+  - split.
+    + intros b. unfold get_bar, nthN. destruct (N.to_nat b) as [|[|[|n]]]; exact I.
+    + eexists. repeat split. intros i ls Hi. unfold nthN in Hi. cbn in Hi.
+      destruct (N.to_nat i); discriminate Hi.
+  - split; [exact (ready_start 6 10 [] 0 0 ltac:(lia))|].
+    split; [vm_compute; repeat split|]. split; [vm_compute; repeat (split || intro)|].
+    split; [|vm_compute; split; reflexivity].
+    intros F. vm_compute in F. repeat match goal with H : _ /\ _ |- _ => destruct H end.
+    match goal with H : [_] = [] |- _ => discriminate H end.
+Qed.
+Print Assumptions C02_detached_suspend_refuted.
